@@ -39,6 +39,16 @@ func vc06bEcho() dnsserver.Handler {
 			Txt: []string{vsock.Digest(vwire.Describe(req, nil))},
 		}}
 
+		if strings.HasPrefix(req.Question[0].Name, "late-") {
+			// A handler that runs out of the request time-out (slow upstream): it
+			// gives up with the context's error, and the server's own SERVFAIL is
+			// then written with a deadline in the past and fails, which takes the
+			// writer's error path.
+			<-ctx.Done()
+
+			return ctx.Err()
+		}
+
 		return rw.WriteMsg(ctx, req, resp)
 	})
 }
@@ -91,11 +101,12 @@ func vc06bStart(t *testing.T) (addr net.Addr, why string) {
 
 		ap := netip.AddrPortFrom(netip.MustParseAddr("127.0.0.1"), port)
 		srv := dnsserver.NewServerDNS(dnsserver.ConfigDNS{ConfigBase: dnsserver.ConfigBase{
-			Name:         "verif-c06-btd",
-			Addr:         ap.String(),
-			Network:      dnsserver.NetworkUDP,
-			Handler:      vc06bEcho(),
-			ListenConfig: lc,
+			Name:           "verif-c06-btd",
+			Addr:           ap.String(),
+			Network:        dnsserver.NetworkUDP,
+			Handler:        vc06bEcho(),
+			RequestContext: dnsserver.NewTimeoutContextConstructor(time.Second),
+			ListenConfig:   lc,
 		}})
 		if err = srv.Start(context.Background()); err != nil {
 			lastErr = err
@@ -147,7 +158,7 @@ func TestVerifC06BindToDevice(t *testing.T) {
 	}
 
 	st := vstat.New("C06", "bindtodevice.udp-sockets", rule,
-		"expect-echo", "expect-none", "longer-than-an-earlier-datagram", "kind-truncated", "kind-counts", "kind-pointer")
+		"expect-echo", "expect-none", "longer-than-an-earlier-datagram", "kind-truncated", "kind-counts", "kind-pointer", "after-failed-response-write")
 	st.Finish(t)
 
 	rapid.Check(t, func(t *rapid.T) {
@@ -163,6 +174,22 @@ func TestVerifC06BindToDevice(t *testing.T) {
 			used[m.Id] = true
 			wires = append(wires, w)
 			shortest = min(shortest, len(w))
+		}
+
+		lateSent := false
+		for i, n := 0, rapid.SampledFrom([]int{0, 0, 0, 0, 0, 0, 0, 0, 0, 0, 0, 1, 3}).Draw(t, "lateQueries"); i < n; i++ {
+			id := uint16(rapid.IntRange(0, 65535).Draw(t, "lateID"))
+			if used[id] {
+				continue
+			}
+
+			used[id] = true
+			lm := (&dns.Msg{}).SetQuestion("late-"+strings.Repeat("x", rapid.IntRange(0, 12).Draw(t, "lateLen"))+".test.", dns.TypeA)
+			lm.Id = id
+			lw, _ := lm.Pack()
+			wires = append(wires, lw)
+			shortest = min(shortest, len(lw))
+			lateSent = true
 		}
 
 		base := vwire.BaseMsg(t)
@@ -204,7 +231,20 @@ func TestVerifC06BindToDevice(t *testing.T) {
 			expect[nextID] = true
 		}
 
-		resps, settled, err := vsock.Round(false, addr, append(wires, next.Wire), sentinel, sentinel2, expect, 0)
+		var resps map[uint16]*dns.Msg
+		var settled bool
+		var err error
+		if lateSent {
+			// Write deadlines are set on the one shared UDP socket: a write with
+			// an expired context can fail a concurrent write of another response.
+			// Not this property's subject: the history finishes first.
+			if _, _, err = vsock.Round(false, addr, wires, sentinel, sentinel2, nil, 0); err == nil {
+				time.Sleep(time.Second + 50*time.Millisecond)
+				resps, settled, err = vsock.Round(false, addr, [][]byte{next.Wire}, sentinel, sentinel2, expect, 0)
+			}
+		} else {
+			resps, settled, err = vsock.Round(false, addr, append(wires, next.Wire), sentinel, sentinel2, expect, 0)
+		}
 
 		classes := []string{"kind-" + next.Kind}
 		switch {
@@ -214,6 +254,10 @@ func TestVerifC06BindToDevice(t *testing.T) {
 			classes = append(classes, "expect-echo")
 		default:
 			classes = append(classes, "expect-rcode")
+		}
+
+		if lateSent {
+			classes = append(classes, "after-failed-response-write")
 		}
 
 		longer := len(next.Wire) > shortest || len(next.Wire) > len(vsock.Sentinel(1))
